@@ -125,13 +125,20 @@ class Check:
         chunks = {}
         for i in range(nfiles):
             size = rng.choice(SIZES) if rng.random() < 0.7 else rng.randrange(0, 3000)
-            kind = rng.choice(["text", "text", "nonl", "newlines", "binary", "shebang", "hash_alone"])
+            kind = rng.choice(["text", "text", "nonl", "newlines", "binary", "shebang", "hash_alone", "utf8", "utf8"])
             name = "f%d.%s" % (i, rng.choice(["txt", "sh", "bin", "dat"]))
             if rng.random() < 0.2:
                 name = "sub%d/" % i + name
                 nodes.append({"path": top + "/sub%d" % i, "type": "dir"})
-            unit = {"text": "ab cd\n", "nonl": "x", "newlines": "\n", "binary": "\x00\xff\xfe\n\x80a", "shebang": "#!/bin/sh\necho\n", "hash_alone": "#"}[kind]
+            unit = {"text": "ab cd\n", "nonl": "x", "newlines": "\n", "binary": "\x00\xff\xfe\n\x80a", "shebang": "#!/bin/sh\necho\n", "hash_alone": "#", "utf8": "ab cd\n"}[kind]
             pat = {"unit": unit, "size": size, "insert": []}
+            if kind == "utf8":
+                # valid UTF-8 text whose multi-byte characters straddle the usual buffer boundaries (bytes given as latin-1 text)
+                size = pat["size"] = rng.choice([8193, 32769, 65537, 70000, 131075, 140000])
+                for b in (8192, 32768, 65536, 131072):
+                    if b + 3 < size:
+                        ch = rng.choice(["\u00c3\u00a9", "\u00e6\u0097\u00a5", "\u00f0\u009f\u0098\u0080"])  # e-acute, a CJK character, an emoji as UTF-8 bytes
+                        pat["insert"].append([b - rng.randint(1, len(ch) - 1), ch])
             if kind == "shebang" and size >= 2:
                 pass
             if rng.random() < 0.5 and size >= len(needle) and kind != "binary":
